@@ -144,19 +144,30 @@ Section Absorb.
   Notation poly_result := (poly_result join ring_of).
   Notation skippable := (skippable join ring_of).
 
+  (* what buildPolygon adds to ctx.skippable does not depend on the identity tail *)
+  Lemma poly_result_fst_mk mk o d r :
+    fst (poly_result_with join ring_of mk o d r) = fst (poly_result_with join ring_of mk_feature o d r).
+  Proof. unfold Model.poly_result_with. break_match; reflexivity. Qed.
+
   Lemma poly_result_fst o d r :
     fst (poly_result o d r) =
-    flat_map ps_skips (map (poly_step d (r_tags r)) (r_members r)) ++ way_keys (olist (snd (poly_result o d r))).
-  Proof. unfold Model.poly_result. break_match; cbn; rewrite ?app_nil_r; reflexivity. Qed.
+    flat_map ps_skips (map (poly_step d (r_tags r)) (r_members r))
+    ++ way_keys (olist (snd (poly_result_with join ring_of mk_feature o d r))).
+  Proof.
+    unfold Model.poly_result. rewrite poly_result_fst_mk.
+    unfold Model.poly_result_with. break_match; cbn; rewrite ?app_nil_r; reflexivity.
+  Qed.
 
   Lemma rel_result_absorbs o d r id : In id (fst (rel_result o d r)) <-> rel_absorbs d r id = true.
   Proof.
-    pose proof (rel_result_way_keys join ring_of Hring o d r) as Hk.
-    unfold rel_absorbs, is_route, is_mp. unfold Model.rel_result in *.
-    destruct (String.eqb (tag_find (r_tags r) "type") "route"); cbn [negb andb].
+    unfold rel_absorbs, is_route. unfold Model.rel_result in *.
+    destruct (String.eqb (tag_find (r_tags r) "type") "route") eqn:Hroute.
     - rewrite route_result_fst. apply route_skips_absorbs.
-    - destruct (String.eqb _ "multipolygon" || String.eqb _ "boundary").
-      + rewrite poly_result_fst, Hk, in_app_iff. unfold mp_absorbs. rewrite orb_true_iff, poly_skips_absorbs.
+    - unfold is_mp. rewrite Hroute. cbn [negb andb].
+      destruct (String.eqb _ "multipolygon" || String.eqb _ "boundary") eqn:Hm.
+      + assert (Hmp : is_mp r = true) by (unfold is_mp; rewrite Hroute, Hm; reflexivity).
+        rewrite poly_result_fst, (poly_x_adopts join ring_of Hring o d r Hmp), in_app_iff.
+        unfold mp_absorbs. rewrite orb_true_iff, poly_skips_absorbs.
         rewrite <- memZ_In. reflexivity.
       + cbn. split; [tauto|discriminate].
   Qed.
